@@ -9,7 +9,7 @@ import (
 	"strings"
 )
 
-func init() { jobs = append(jobs, job{props: []string{"C10"}, fn: genStoreFacts}) }
+func init() { jobs = append(jobs, job{props: []string{"C10"}, fn: storeGenFacts}) }
 
 // storeFuncs are the serialisers / deserialisers of the trader database whose
 // ordered element lists the C10 model consumes.
@@ -26,11 +26,11 @@ var storeFuncs = []string{
 	"serializeMatchedOrder", "deserializeMatchedOrder",
 }
 
-func stripAmp(s string) string { return strings.TrimPrefix(s, "&") }
+func storeStripAmp(s string) string { return strings.TrimPrefix(s, "&") }
 
 // elemCalls returns, in source order, the element lists of every
 // codec.WriteElement(s) ("W") / ReadElement(s) ("R") call of a function body.
-func elemCalls(fd *ast.FuncDecl) [][2]interface{} {
+func storeElemCalls(fd *ast.FuncDecl) [][2]interface{} {
 	var res [][2]interface{}
 	ast.Inspect(fd.Body, func(n ast.Node) bool {
 		ce, ok := n.(*ast.CallExpr)
@@ -52,7 +52,7 @@ func elemCalls(fd *ast.FuncDecl) [][2]interface{} {
 		}
 		var args []string
 		for _, a := range ce.Args[1:] {
-			args = append(args, stripAmp(exprString(a)))
+			args = append(args, storeStripAmp(exprString(a)))
 		}
 		res = append(res, [2]interface{}{kind, args})
 		return true
@@ -62,14 +62,14 @@ func elemCalls(fd *ast.FuncDecl) [][2]interface{} {
 
 // tlvRecords returns (type constant, value variable) of every
 // tlv.MakePrimitiveRecord call of a function body, in source order.
-func tlvRecords(fd *ast.FuncDecl) [][2]string {
+func storeTlvRecords(fd *ast.FuncDecl) [][2]string {
 	var res [][2]string
 	ast.Inspect(fd.Body, func(n ast.Node) bool {
 		ce, ok := n.(*ast.CallExpr)
 		if !ok || exprString(ce.Fun) != "tlv.MakePrimitiveRecord" || len(ce.Args) != 2 {
 			return true
 		}
-		res = append(res, [2]string{exprString(ce.Args[0]), stripAmp(exprString(ce.Args[1]))})
+		res = append(res, [2]string{exprString(ce.Args[0]), storeStripAmp(exprString(ce.Args[1]))})
 		return true
 	})
 	return res
@@ -77,7 +77,7 @@ func tlvRecords(fd *ast.FuncDecl) [][2]string {
 
 // emptyStateCases returns the case expressions of the empty clauses of the
 // `switch a.State` statement of a function (the states that carry no LatestTx).
-func emptyStateCases(fd *ast.FuncDecl) ([]string, bool) {
+func storeEmptyStateCases(fd *ast.FuncDecl) ([]string, bool) {
 	var res []string
 	found := false
 	ast.Inspect(fd.Body, func(n ast.Node) bool {
@@ -100,7 +100,7 @@ func emptyStateCases(fd *ast.FuncDecl) ([]string, bool) {
 }
 
 // typedConsts lists the constants declared with the given named type.
-func typedConsts(files []*ast.File, ce *constEnv, pkg, typ string) [][2]string {
+func storeTypedConsts(files []*ast.File, ce *constEnv, pkg, typ string) [][2]string {
 	var res [][2]string
 	for _, f := range files {
 		for _, d := range f.Decls {
@@ -146,7 +146,7 @@ func storeLeanPairs(ps [][2]string, num bool) string {
 	return "[" + strings.Join(q, ", ") + "]"
 }
 
-func genStoreFacts() {
+func storeGenFacts() {
 	l := newLean("StoreFacts", "C10: ordered element lists of the trader-database (de)serialisers, TLV type "+
 		"numbers and record lists, state tables; read from clientdb/*.go, account/, order/.")
 	l.p("namespace Pool.Gen.Store")
@@ -168,7 +168,7 @@ func genStoreFacts() {
 			continue
 		}
 		var cs []string
-		for _, c := range elemCalls(fd) {
+		for _, c := range storeElemCalls(fd) {
 			cs = append(cs, fmt.Sprintf("(%q, %s)", c[0].(string), leanStrList(c[1].([]string))))
 		}
 		sep := ","
@@ -192,7 +192,7 @@ func genStoreFacts() {
 			fail("clientdb.%s not found", fn)
 			continue
 		}
-		recs := tlvRecords(fd)
+		recs := storeTlvRecords(fd)
 		if len(recs) == 0 {
 			fail("clientdb.%s: no tlv.MakePrimitiveRecord calls", fn)
 		}
@@ -218,7 +218,7 @@ func genStoreFacts() {
 		if fd == nil {
 			continue
 		}
-		cases, ok := emptyStateCases(fd)
+		cases, ok := storeEmptyStateCases(fd)
 		if !ok {
 			fail("clientdb.%s: `switch a.State` not found", fn)
 		}
@@ -232,18 +232,18 @@ func genStoreFacts() {
 	}
 
 	// 4. enums
-	l.p("def accountStates : List (String × Nat) := %s", storeLeanPairs(typedConsts(acctFiles, acct, "account", "State"), true))
-	l.p("def accountVersions : List (String × Nat) := %s", storeLeanPairs(typedConsts(acctFiles, acct, "account", "Version"), true))
-	l.p("def orderTypes : List (String × Nat) := %s", storeLeanPairs(typedConsts(ordFiles, ord, "order", "Type"), true))
-	l.p("def orderStates : List (String × Nat) := %s", storeLeanPairs(typedConsts(ordFiles, ord, "order", "State"), true))
-	l.p("def orderVersions : List (String × Nat) := %s", storeLeanPairs(typedConsts(ordFiles, ord, "order", "Version"), true))
-	l.p("def channelTypes : List (String × Nat) := %s", storeLeanPairs(typedConsts(ordFiles, ord, "order", "ChannelType"), true))
-	l.p("def auctionTypes : List (String × Nat) := %s", storeLeanPairs(typedConsts(ordFiles, ord, "order", "AuctionType"), true))
+	l.p("def accountStates : List (String × Nat) := %s", storeLeanPairs(storeTypedConsts(acctFiles, acct, "account", "State"), true))
+	l.p("def accountVersions : List (String × Nat) := %s", storeLeanPairs(storeTypedConsts(acctFiles, acct, "account", "Version"), true))
+	l.p("def orderTypes : List (String × Nat) := %s", storeLeanPairs(storeTypedConsts(ordFiles, ord, "order", "Type"), true))
+	l.p("def orderStates : List (String × Nat) := %s", storeLeanPairs(storeTypedConsts(ordFiles, ord, "order", "State"), true))
+	l.p("def orderVersions : List (String × Nat) := %s", storeLeanPairs(storeTypedConsts(ordFiles, ord, "order", "Version"), true))
+	l.p("def channelTypes : List (String × Nat) := %s", storeLeanPairs(storeTypedConsts(ordFiles, ord, "order", "ChannelType"), true))
+	l.p("def auctionTypes : List (String × Nat) := %s", storeLeanPairs(storeTypedConsts(ordFiles, ord, "order", "AuctionType"), true))
 	l.p("def announcementConstraints : List (String × Nat) := %s",
-		storeLeanPairs(typedConsts(ordFiles, ord, "order", "ChannelAnnouncementConstraints"), true))
+		storeLeanPairs(storeTypedConsts(ordFiles, ord, "order", "ChannelAnnouncementConstraints"), true))
 	l.p("def confirmationConstraints : List (String × Nat) := %s",
-		storeLeanPairs(typedConsts(ordFiles, ord, "order", "ChannelConfirmationConstraints"), true))
-	l.p("def nodeTiers : List (String × Nat) := %s", storeLeanPairs(typedConsts(ordFiles, ord, "order", "NodeTier"), true))
+		storeLeanPairs(storeTypedConsts(ordFiles, ord, "order", "ChannelConfirmationConstraints"), true))
+	l.p("def nodeTiers : List (String × Nat) := %s", storeLeanPairs(storeTypedConsts(ordFiles, ord, "order", "NodeTier"), true))
 	l.p("def legacyLeaseDurationBucket : Nat := %s", intConst(ord, "order", "LegacyLeaseDurationBucket"))
 	l.p("end Pool.Gen.Store")
 }
